@@ -79,8 +79,8 @@ class TimeoutExecutor(CanCustomizeBind, Executor):
         metrics.EXEC_TOTAL.labels(type="timeout", executor=self._name).inc()
         metrics.EXEC_INPROGRESS.labels(type="timeout", executor=self._name).inc()
 
-    def submit(self, *args, **kwargs):  # pylint: disable=arguments-differ
-        return self.submit_timeout(self._timeout, *args, **kwargs)
+    def submit(self, fn, *args, **kwargs):  # pylint: disable=arguments-differ
+        return self._submit_timeout(self._timeout, fn, args, kwargs)
 
     def submit_timeout(self, timeout, fn, *args, **kwargs):
         """Like :code:`submit(fn, *args, **kwargs)`, but uses the specified
@@ -88,6 +88,11 @@ class TimeoutExecutor(CanCustomizeBind, Executor):
 
         .. versionadded:: 1.19.0
         """
+        return self._submit_timeout(timeout, fn, args, kwargs)
+
+    def _submit_timeout(self, timeout, fn, args, kwargs):
+        # args/kwargs are not unpacked here, so a keyword argument of fn
+        # may have the same name as one of our own parameters
         with self._shutdown.ensure_alive():
             delegate_future = self._delegate.submit(fn, *args, **kwargs)
             future = MapFuture(delegate_future)
